@@ -139,6 +139,8 @@ class _Expr(SymEval):
             return self.owner.get(base, n.attr)
         if isinstance(base, np.ndarray) and n.attr in ("T", "shape", "size", "ndim"):
             return getattr(base, n.attr)
+        if isinstance(base, np.ndarray) and n.attr == "flat":
+            return base.ravel(order="C")  # iteration order of ndarray.flat (a view for contiguous arrays)
         if isinstance(base, (list, tuple)) and n.attr == "shape":
             raise NotSymbolic("shape of a list")
         raise NotSymbolic(f"attribute {n.attr} of {type(base).__name__}")
